@@ -530,6 +530,17 @@ func loopPos(li *loopInfo) token.Pos {
 }
 
 func (e *Exec) loopSpec(li *loopInfo) *LoopSpec {
+	if e.parent != nil {
+		// executed in place: the function under verification supplies the invariant
+		if rfc := e.root().fc; rfc != nil {
+			for k, ls := range rfc.InlineLoops {
+				h := strings.LastIndex(k, "#")
+				if k[h+1:] == fmt.Sprint(li.ordinal) && strings.Contains(funcKey(e.fn), k[:h]) {
+					return ls
+				}
+			}
+		}
+	}
 	if e.fc == nil {
 		return nil
 	}
@@ -635,14 +646,14 @@ func (e *Exec) closeLoop(li *loopInfo, from *ssa.BasicBlock, st *State) {
 			if !ok {
 				h0 = ConstI(0, I64)
 			}
-			e.addObl("lock", fmt.Sprintf("loop%d-balanced", li.ordinal), "lock state at the end of a loop iteration equals the state at its start", e.fc.Props, st, Eq(v, h0), from.Instrs[len(from.Instrs)-1].Pos())
+			e.addObl("lock", fmt.Sprintf("loop%d-balanced", li.ordinal), "lock state at the end of a loop iteration equals the state at its start", e.root().defaultProps, st, Eq(v, h0), from.Instrs[len(from.Instrs)-1].Pos())
 		}
 	}
 	if ls.Decreases != nil {
 		env.polarity = polProve
 		nv := e.scalarOf(env.eval(ls.Decreases.Expr))
 		g := And(Lt(nv, decrOld), Le(ConstI(0, nv.Sort), decrOld))
-		e.addObl("decr", fmt.Sprintf("loop%d", li.ordinal), ls.Decreases.Text, e.fc.clauseProps(ls.Decreases), st, g, from.Instrs[len(from.Instrs)-1].Pos())
+		e.addObl("decr", fmt.Sprintf("loop%d", li.ordinal), ls.Decreases.Text, e.root().defaultProps, st, g, from.Instrs[len(from.Instrs)-1].Pos())
 	}
 	for phi, v := range saved {
 		e.vals[phi] = v
@@ -1105,7 +1116,13 @@ func (e *Exec) invObligations(env *Env, cl *Clause, k int, li *loopInfo, phase s
 			label = fmt.Sprintf("loop%d/%s.%d/%s", li.ordinal, clauseLabel(cl, k), pi+1, phase)
 			text = pt.x.String() + "   [part of: " + cl.Text + "]"
 		}
-		e.addObl("inv", label, text, e.fc.clauseProps(cl), st, g, pos)
+		props := e.root().defaultProps
+		if e.fc != nil && e.parent == nil {
+			props = e.fc.clauseProps(cl)
+		} else if len(cl.Props) > 0 {
+			props = cl.Props
+		}
+		e.addObl("inv", label, text, props, st, g, pos)
 	}
 }
 
